@@ -5,7 +5,7 @@ import ast
 
 from engine.defuse import value_sources
 from engine.flow import mentions_params, must_complete, reachable_from_entry
-from .common import CALLS, open_mode
+from .common import CALLS, open_mode, open_path_expr
 
 META = {
     "explanation": (
@@ -38,7 +38,8 @@ def dest_opens(an, fn, params, depth=0, seen=None):
         if n.kind != "call":
             continue
         evs = [e for e in calls.direct(fn, n) if e[0] == "OPEN"]
-        if evs and n.ast.args and mentions_params(fn, n.ast.args[0], n, params):
+        pe = open_path_expr(n.ast)
+        if evs and pe is not None and mentions_params(fn, pe, n, params):
             out.append((fn, n, evs[0][2]))
             continue
         for t in an.targets(fn, n):
